@@ -1,6 +1,7 @@
 use std::sync::Arc;
 
-use fxhash::FxHashSet;
+use fxhash::FxHashMap;
+use qbice_stable_hash::Compact128;
 
 use crate::{
     engine::computation_graph::{
@@ -38,9 +39,11 @@ pub struct QueryCaller {
     pedantic_repair: bool,
 
     /// The callees this query read during its previous execution (empty if
-    /// it has never been executed). Only these are covered by the transitive
-    /// firewall repair done at the root of the current request.
-    previous_callees: Option<Arc<FxHashSet<QueryID>>>,
+    /// it has never been executed), with the fingerprint of the transitive
+    /// firewall callees it has accounted for each of them. Only these are
+    /// covered by the transitive firewall repair done at the root of the
+    /// current request.
+    previous_callees: Option<Arc<FxHashMap<QueryID, Compact128>>>,
 }
 
 impl QueryCaller {
@@ -63,25 +66,32 @@ impl QueryCaller {
     #[must_use]
     pub fn with_previous_callees(
         mut self,
-        previous_callees: Arc<FxHashSet<QueryID>>,
+        previous_callees: Arc<FxHashMap<QueryID, Compact128>>,
     ) -> Self {
         self.previous_callees = Some(previous_callees);
         self
     }
 
     /// Returns `true` if the executor asks for `callee` without having read
-    /// it in its previous execution (or has never been executed before).
+    /// it in its previous execution (or has never been executed before), or
+    /// if the transitive firewall callees of `callee` are no longer the ones
+    /// this query has accounted for (`current` is their fingerprint now).
     ///
     /// Such a dependency is not covered by the transitive-firewall repair
     /// performed for the root of the request, so the dirty flags below the
     /// callee may be incomplete and it has to be repaired pedantically.
     #[must_use]
-    pub fn reads_new_callee(&self, callee: &QueryID) -> bool {
+    pub fn reads_unaccounted_callee(
+        &self,
+        callee: &QueryID,
+        current: Option<Compact128>,
+    ) -> bool {
         self.require_value()
             && self
                 .previous_callees
                 .as_ref()
-                .is_none_or(|known| !known.contains(callee))
+                .and_then(|known| known.get(callee))
+                .is_none_or(|seen| current.is_some_and(|now| now != *seen))
     }
 
     pub const fn new_external_input(
@@ -175,17 +185,30 @@ impl CallerInformation {
 
     pub const fn timestamp(&self) -> Timestamp { self.timestamp }
 
-    /// If the caller is an executor asking for a callee it did not read in
-    /// its previous execution, returns the same caller information with
-    /// pedantic repair switched on for this request.
+    /// Returns `true` if pedantic repair is still an option for this caller:
+    /// it is an executor that is not repairing pedantically already.
     #[must_use]
-    pub fn pedantic_for_new_callee(&self, callee: &QueryID) -> Option<Self> {
+    pub fn may_turn_pedantic(&self) -> bool {
+        matches!(&self.kind, CallerKind::Query(query_caller)
+            if !query_caller.pedantic_repair && query_caller.require_value())
+    }
+
+    /// If the caller is an executor asking for a callee it did not read in
+    /// its previous execution, or whose transitive firewall callees (their
+    /// fingerprint now is `current`) changed since, returns the same caller
+    /// information with pedantic repair switched on for this request.
+    #[must_use]
+    pub fn pedantic_for_unaccounted_callee(
+        &self,
+        callee: &QueryID,
+        current: Option<Compact128>,
+    ) -> Option<Self> {
         let CallerKind::Query(query_caller) = &self.kind else {
             return None;
         };
 
         if query_caller.pedantic_repair
-            || !query_caller.reads_new_callee(callee)
+            || !query_caller.reads_unaccounted_callee(callee, current)
         {
             return None;
         }
